@@ -981,6 +981,9 @@ mutant('D2-created-account-publishes-reset-marker-last', ['C08'], [
     ('src/incarnation_db.rs', "            if created {\n                self.publish_storage_reset(*address, estimate, &mut write_set);\n            }\n\n            let account_snapshot", "            let account_snapshot"),
     ('src/incarnation_db.rs', "                    &mut write_set,\n                );\n            }\n        }\n\n        write_set", "                    &mut write_set,\n                );\n            }\n            if created {\n                self.publish_storage_reset(*address, estimate, &mut write_set);\n            }\n        }\n\n        write_set"),
 ], ['|D2|'])
+mutant('V1-commit-skips-successor-when-cursor-is-behind', ['C16', 'C05'], [
+    ('src/tx_dependency.rs', "        if next < self.num_txs {\n            let mut state = self.dependent_state[next].lock();\n            if state.onboard {", "        if next < self.num_txs && self.index.load(Ordering::Relaxed) > next {\n            let mut state = self.dependent_state[next].lock();\n            if state.onboard {"),
+], ['|V1|'])
 mutant('LC5-validate-stale-test-inverted', ['C05'], [(S, """        if tx_state.incarnation != incarnation {
             self.abort(AbortReason::ParallelError {
                 txid,
